@@ -63,7 +63,9 @@ package api
 // opCalls / opKind / last<Kind>: number of downstream operation calls, the kind of the last one and
 // a pointer to the parameter object it was given (the proof-side twin of a recording fake handler).
 // probeCalls / lastDescribe<Level>: the same for the three readiness probes.
-// Assumed for every implementation: a call changes nothing the writer can see except these ghosts.
+// Assumed for every implementation: a call changes nothing the writer can see except these ghosts;
+// an operation call is a synchronisation point at which concurrently running DDL handlers may have
+// updated the create/drop tables (umaps(string;uint64) in the frame).
 //@ ghost var opCalls int
 //@ ghost var opKind string
 //@ ghost var probeCalls int
@@ -98,103 +100,103 @@ package api
 //@ trusted func (DataHandler).CreateCollection
 //@   params recv ctx param
 //@   ensures opCalls == old(opCalls) + 1 && opKind == "CreateCollection" && lastCreateCollection == param
-//@   modifies opCalls, opKind, lastCreateCollection
+//@   modifies opCalls, opKind, lastCreateCollection, umaps(string;uint64)
 //@ trusted func (DataHandler).DropCollection
 //@   params recv ctx param
 //@   ensures opCalls == old(opCalls) + 1 && opKind == "DropCollection" && lastDropCollection == param
-//@   modifies opCalls, opKind, lastDropCollection
+//@   modifies opCalls, opKind, lastDropCollection, umaps(string;uint64)
 //@ trusted func (DataHandler).CreatePartition
 //@   params recv ctx param
 //@   ensures opCalls == old(opCalls) + 1 && opKind == "CreatePartition" && lastCreatePartition == param
-//@   modifies opCalls, opKind, lastCreatePartition
+//@   modifies opCalls, opKind, lastCreatePartition, umaps(string;uint64)
 //@ trusted func (DataHandler).DropPartition
 //@   params recv ctx param
 //@   ensures opCalls == old(opCalls) + 1 && opKind == "DropPartition" && lastDropPartition == param
-//@   modifies opCalls, opKind, lastDropPartition
+//@   modifies opCalls, opKind, lastDropPartition, umaps(string;uint64)
 //@ trusted func (DataHandler).Insert
 //@   params recv ctx param
 //@   ensures opCalls == old(opCalls) + 1 && opKind == "Insert" && lastInsert == param
-//@   modifies opCalls, opKind, lastInsert
+//@   modifies opCalls, opKind, lastInsert, umaps(string;uint64)
 //@ trusted func (DataHandler).Delete
 //@   params recv ctx param
 //@   ensures opCalls == old(opCalls) + 1 && opKind == "Delete" && lastDelete == param
-//@   modifies opCalls, opKind, lastDelete
+//@   modifies opCalls, opKind, lastDelete, umaps(string;uint64)
 //@ trusted func (DataHandler).Flush
 //@   params recv ctx param
 //@   ensures opCalls == old(opCalls) + 1 && opKind == "Flush" && lastFlush == param
-//@   modifies opCalls, opKind, lastFlush
+//@   modifies opCalls, opKind, lastFlush, umaps(string;uint64)
 //@ trusted func (DataHandler).LoadCollection
 //@   params recv ctx param
 //@   ensures opCalls == old(opCalls) + 1 && opKind == "LoadCollection" && lastLoadCollection == param
-//@   modifies opCalls, opKind, lastLoadCollection
+//@   modifies opCalls, opKind, lastLoadCollection, umaps(string;uint64)
 //@ trusted func (DataHandler).ReleaseCollection
 //@   params recv ctx param
 //@   ensures opCalls == old(opCalls) + 1 && opKind == "ReleaseCollection" && lastReleaseCollection == param
-//@   modifies opCalls, opKind, lastReleaseCollection
+//@   modifies opCalls, opKind, lastReleaseCollection, umaps(string;uint64)
 //@ trusted func (DataHandler).LoadPartitions
 //@   params recv ctx param
 //@   ensures opCalls == old(opCalls) + 1 && opKind == "LoadPartitions" && lastLoadPartitions == param
-//@   modifies opCalls, opKind, lastLoadPartitions
+//@   modifies opCalls, opKind, lastLoadPartitions, umaps(string;uint64)
 //@ trusted func (DataHandler).ReleasePartitions
 //@   params recv ctx param
 //@   ensures opCalls == old(opCalls) + 1 && opKind == "ReleasePartitions" && lastReleasePartitions == param
-//@   modifies opCalls, opKind, lastReleasePartitions
+//@   modifies opCalls, opKind, lastReleasePartitions, umaps(string;uint64)
 //@ trusted func (DataHandler).CreateIndex
 //@   params recv ctx param
 //@   ensures opCalls == old(opCalls) + 1 && opKind == "CreateIndex" && lastCreateIndex == param
-//@   modifies opCalls, opKind, lastCreateIndex
+//@   modifies opCalls, opKind, lastCreateIndex, umaps(string;uint64)
 //@ trusted func (DataHandler).DropIndex
 //@   params recv ctx param
 //@   ensures opCalls == old(opCalls) + 1 && opKind == "DropIndex" && lastDropIndex == param
-//@   modifies opCalls, opKind, lastDropIndex
+//@   modifies opCalls, opKind, lastDropIndex, umaps(string;uint64)
 //@ trusted func (DataHandler).AlterIndex
 //@   params recv ctx param
 //@   ensures opCalls == old(opCalls) + 1 && opKind == "AlterIndex" && lastAlterIndex == param
-//@   modifies opCalls, opKind, lastAlterIndex
+//@   modifies opCalls, opKind, lastAlterIndex, umaps(string;uint64)
 //@ trusted func (DataHandler).CreateDatabase
 //@   params recv ctx param
 //@   ensures opCalls == old(opCalls) + 1 && opKind == "CreateDatabase" && lastCreateDatabase == param
-//@   modifies opCalls, opKind, lastCreateDatabase
+//@   modifies opCalls, opKind, lastCreateDatabase, umaps(string;uint64)
 //@ trusted func (DataHandler).DropDatabase
 //@   params recv ctx param
 //@   ensures opCalls == old(opCalls) + 1 && opKind == "DropDatabase" && lastDropDatabase == param
-//@   modifies opCalls, opKind, lastDropDatabase
+//@   modifies opCalls, opKind, lastDropDatabase, umaps(string;uint64)
 //@ trusted func (DataHandler).AlterDatabase
 //@   params recv ctx param
 //@   ensures opCalls == old(opCalls) + 1 && opKind == "AlterDatabase" && lastAlterDatabase == param
-//@   modifies opCalls, opKind, lastAlterDatabase
+//@   modifies opCalls, opKind, lastAlterDatabase, umaps(string;uint64)
 //@ trusted func (DataHandler).ReplicateMessage
 //@   params recv ctx param
 //@   ensures opCalls == old(opCalls) + 1 && opKind == "ReplicateMessage" && lastReplicateMessage == param
-//@   modifies opCalls, opKind, lastReplicateMessage
+//@   modifies opCalls, opKind, lastReplicateMessage, umaps(string;uint64)
 //@ trusted func (DataHandler).CreateUser
 //@   params recv ctx param
 //@   ensures opCalls == old(opCalls) + 1 && opKind == "CreateUser" && lastCreateUser == param
-//@   modifies opCalls, opKind, lastCreateUser
+//@   modifies opCalls, opKind, lastCreateUser, umaps(string;uint64)
 //@ trusted func (DataHandler).DeleteUser
 //@   params recv ctx param
 //@   ensures opCalls == old(opCalls) + 1 && opKind == "DeleteUser" && lastDeleteUser == param
-//@   modifies opCalls, opKind, lastDeleteUser
+//@   modifies opCalls, opKind, lastDeleteUser, umaps(string;uint64)
 //@ trusted func (DataHandler).UpdateUser
 //@   params recv ctx param
 //@   ensures opCalls == old(opCalls) + 1 && opKind == "UpdateUser" && lastUpdateUser == param
-//@   modifies opCalls, opKind, lastUpdateUser
+//@   modifies opCalls, opKind, lastUpdateUser, umaps(string;uint64)
 //@ trusted func (DataHandler).CreateRole
 //@   params recv ctx param
 //@   ensures opCalls == old(opCalls) + 1 && opKind == "CreateRole" && lastCreateRole == param
-//@   modifies opCalls, opKind, lastCreateRole
+//@   modifies opCalls, opKind, lastCreateRole, umaps(string;uint64)
 //@ trusted func (DataHandler).DropRole
 //@   params recv ctx param
 //@   ensures opCalls == old(opCalls) + 1 && opKind == "DropRole" && lastDropRole == param
-//@   modifies opCalls, opKind, lastDropRole
+//@   modifies opCalls, opKind, lastDropRole, umaps(string;uint64)
 //@ trusted func (DataHandler).OperateUserRole
 //@   params recv ctx param
 //@   ensures opCalls == old(opCalls) + 1 && opKind == "OperateUserRole" && lastOperateUserRole == param
-//@   modifies opCalls, opKind, lastOperateUserRole
+//@   modifies opCalls, opKind, lastOperateUserRole, umaps(string;uint64)
 //@ trusted func (DataHandler).OperatePrivilege
 //@   params recv ctx param
 //@   ensures opCalls == old(opCalls) + 1 && opKind == "OperatePrivilege" && lastOperatePrivilege == param
-//@   modifies opCalls, opKind, lastOperatePrivilege
+//@   modifies opCalls, opKind, lastOperatePrivilege, umaps(string;uint64)
 //@ trusted func (DataHandler).DescribeCollection
 //@   params recv ctx param
 //@   ensures probeCalls == old(probeCalls) + 1 && lastDescribeCollection == param
